@@ -981,6 +981,13 @@ impl Ord for ProofSearchState {
     }
 }
 
+/// `now + budget` without overflowing `Instant`: an effectively unlimited budget
+/// such as `Duration::MAX` is a valid configuration and means "no deadline".
+fn deadline_after(now: Instant, budget: Duration) -> Instant {
+    now.checked_add(budget)
+        .unwrap_or_else(|| now + Duration::from_secs(100 * 365 * 24 * 3600))
+}
+
 fn enumerate_proofs(
     store: &LineageStore,
     seeds: &SeedSnapshot,
@@ -1177,7 +1184,7 @@ pub fn evaluate_topk(
         return Err(HybridReason::DiagnosticOnly);
     }
     let clock = SystemHybridClock;
-    let deadline = clock.now() + budget;
+    let deadline = deadline_after(clock.now(), budget);
     let metadata = store.metadata(root, seeds);
     if metadata.has_negation || !metadata.monotone {
         return Err(HybridReason::NegationRequiresExact);
@@ -1263,7 +1270,7 @@ pub fn compile_lineage_to_sdd_with_clock(
     node_budget: usize,
     clock: &dyn HybridClock,
 ) -> Result<CompiledSdd, HybridReason> {
-    let deadline = clock.now() + budget;
+    let deadline = deadline_after(clock.now(), budget);
     let mut referenced = BTreeSet::new();
     collect_seed_ids(store, root, &mut referenced);
     let mut expanded = referenced.clone();
@@ -1445,7 +1452,7 @@ fn evaluate_hybrid_controlled(
         ..HybridMetrics::default()
     };
     let topk_start = clock.now();
-    let topk_deadline = topk_start + config.topk_budget;
+    let topk_deadline = deadline_after(topk_start, config.topk_budget);
     let mut lower_bound = None;
     let mut last_interval = None;
     let supported_topk = metadata.monotone && !metadata.has_exclusive_group && !metadata.has_cycle;
